@@ -18,7 +18,7 @@ class TLCError(RuntimeError):
 
 
 def _java(args, env=None, timeout=None, cwd=None, heap="4g", gc="-XX:+UseParallelGC"):
-    cmd = ["java", gc, "-XX:TieredStopAtLevel=4", f"-Xmx{heap}", "-cp", JAR, "tlc2.TLC"] + args
+    cmd = ["java", gc, "-Xss64m", f"-Xmx{heap}", "-cp", JAR, "tlc2.TLC"] + args
     e = dict(os.environ)
     if env:
         e.update(env)
@@ -95,7 +95,7 @@ def model_check_start(module: str, cfg_text: str, name: str, workers: int = 6, h
     cfg.write_text(cfg_text)
     args = ["-workers", str(workers), "-metadir", str(wd / "meta"), "-noGenerateSpecTE",
             "-config", str(cfg)] + list(extra) + [str(SPEC / f"{module}.tla")]
-    cmd = ["java", "-XX:+UseParallelGC", f"-Xmx{heap}", "-cp", JAR, "tlc2.TLC"] + args
+    cmd = ["java", "-XX:+UseParallelGC", "-Xss64m", f"-Xmx{heap}", "-cp", JAR, "tlc2.TLC"] + args
     outf = open(wd / "out.txt", "w")
     p = subprocess.Popen(cmd, cwd=str(SPEC), stdout=outf, stderr=subprocess.STDOUT)
     return {"proc": p, "wd": wd, "outf": outf, "t0": time.time(), "name": name, "module": module}
